@@ -5,53 +5,85 @@
 (* manners, clear / destroy of sources and generic reads on the copies     *)
 (* (harness/tbl_driver.cpp, mode runblk).  Events:                         *)
 (*   R                                                                     *)
-(*   I  t k v n        item v of kind k added to slot t, n items of kind k *)
+(*   I  t k v n full   item v of kind k added to slot t, n items of kind k, *)
+(*                     full = what add_*() returned (block full under its  *)
+(*                     own parameters)                                     *)
+(*   NB t p            a new block constructed with parameter set p        *)
+(*   SP t p ret        set_block_parameters(p) on slot t returned ret      *)
 (*   CL t / DS t                                                           *)
 (*   CP src dst how counts foreign                                         *)
-(*   RD t k end v c ok one read_generic_<k>(): end flag, id, count and     *)
-(*                     whether all derived members equal those of item v   *)
-(*   S  t q a m        the block written through the real exporter and     *)
-(*                     read back: ids of q and m, [key, count] pairs of a  *)
+(*   RD t k end v c ok rc oc  one read_generic_<k>(): end flag, id, count, *)
+(*                     whether all other members (times exact to the tick) *)
+(*                     equal those of item v; rc / oc: the record has a    *)
+(*                     response-rcode / query-opcode (stored or not        *)
+(*                     according to the hints of the block's parameters)   *)
+(*   S  t p q a m      the block written through the real exporter (with   *)
+(*                     parameter set p in the file preamble) and read      *)
+(*                     back: [id, rc, oc] of q, ids of m, [key, count] of a*)
 (***************************************************************************)
 EXTENDS BlockValue, Json, IOUtils
 
 Tr == ndJsonDeserialize(IOEnv.TRACE)
 N  == Len(Tr)
 
-VARIABLES l, val, cur, lost, viol, execs
-tvars == <<l, val, cur, lost, viol, execs>>
+VARIABLES l, val, cur, lost, viol, execs, mf
+tvars == <<l, val, cur, lost, viol, execs, mf>>
+(* mf: slots whose block was the source of a MOVE and was not overwritten, re-made or destroyed since.  The property    *)
+(* promises nothing about a moved-from block (the pinned code copies, a real move empties it): nothing observed on it,  *)
+(* or on a block obtained from it, is judged.                                                                            *)
 
 Note(v) == IF Len(viol) < 40 THEN Append(viol, v) ELSE viol
 Slots == 1..3
 
 TraceInit == /\ l = 1 /\ val = [t \in Slots |-> EmptyVal] /\ cur = [t \in Slots |-> NoCursor]
-             /\ lost = TRUE /\ viol = <<>> /\ execs = 0
+             /\ lost = TRUE /\ viol = <<>> /\ execs = 0 /\ mf = {}
 
 TReset == /\ l <= N /\ Tr[l].e = "R"
           /\ val' = [t \in Slots |-> EmptyVal] /\ cur' = [t \in Slots |-> NoCursor]
-          /\ lost' = FALSE /\ execs' = execs + 1 /\ l' = l + 1
+          /\ lost' = FALSE /\ execs' = execs + 1 /\ l' = l + 1 /\ mf' = {}
           /\ UNCHANGED viol
 
 Bad(what, ev) == /\ viol' = Note([l |-> l, prop |-> "C19", what |-> what, event |-> ev])
                  /\ lost' = TRUE
 
 TItem == /\ l <= N /\ Tr[l].e = "I"
-         /\ l' = l + 1 /\ UNCHANGED <<execs, cur>>
-         /\ IF lost THEN UNCHANGED <<val, lost, viol>>
+         /\ l' = l + 1 /\ UNCHANGED <<execs, cur, mf>>
+         /\ IF lost \/ Tr[l].t \in mf THEN UNCHANGED <<val, lost, viol>>
             ELSE LET ev == Tr[l]
                      nv == AbsAddItem(val[ev.t], ev.k, ev.v)
-                 IN IF ev.n = Count(nv, ev.k)
-                    THEN val' = [val EXCEPT ![ev.t] = nv] /\ UNCHANGED <<lost, viol>>
-                    ELSE Bad("adding an item to a block gave another item count than on a fresh block with that content", ev)
+                 IN IF ev.n # Count(nv, ev.k)
+                    THEN Bad("adding an item to a block gave another item count than on a fresh block with that content", ev)
                          /\ UNCHANGED val
+                    ELSE IF ev.full # AbsFull(nv)
+                    THEN Bad("adding an item reported the block full / not full differently from a fresh block with that content and those parameters", ev)
+                         /\ UNCHANGED val
+                    ELSE val' = [val EXCEPT ![ev.t] = nv] /\ UNCHANGED <<lost, viol>>
+
+TNew == /\ l <= N /\ Tr[l].e = "NB"
+        /\ l' = l + 1 /\ UNCHANGED <<execs, lost, viol>> /\ mf' = mf \ {Tr[l].t}
+        /\ val' = [val EXCEPT ![Tr[l].t] = EmptyValP(Tr[l].p)]
+        /\ cur' = [cur EXCEPT ![Tr[l].t] = NoCursor]
+
+TSetP == /\ l <= N /\ Tr[l].e = "SP"
+         /\ l' = l + 1 /\ UNCHANGED <<execs, cur, mf>>
+         /\ IF lost \/ Tr[l].t \in mf THEN UNCHANGED <<val, lost, viol>>
+            ELSE LET ev == Tr[l]
+                     allowed == Counts(val[ev.t]) = <<0, 0, 0>>
+                 IN IF ev.ret # allowed
+                    THEN Bad("set_block_parameters accepted / refused differently from a fresh block with that content", ev) /\ UNCHANGED val
+                    ELSE /\ val' = IF allowed THEN [val EXCEPT ![ev.t].p = ev.p] ELSE val
+                         /\ UNCHANGED <<lost, viol>>
 
 TClear == /\ l <= N /\ Tr[l].e \in {"CL", "DS"}
           /\ l' = l + 1 /\ UNCHANGED <<execs, lost, viol, cur>>
-          /\ val' = [val EXCEPT ![Tr[l].t] = EmptyVal]
+          /\ mf' = IF Tr[l].e = "DS" THEN mf \ {Tr[l].t} ELSE mf
+          /\ val' = [val EXCEPT ![Tr[l].t] = IF Tr[l].e = "CL" THEN EmptyValP(@.p) ELSE EmptyVal]
 
 TCopy == /\ l <= N /\ Tr[l].e = "CP"
          /\ l' = l + 1 /\ UNCHANGED execs
-         /\ IF lost THEN UNCHANGED <<val, cur, lost, viol>>
+         /\ mf' = IF Tr[l].src \in mf THEN mf \cup {Tr[l].dst}
+                  ELSE IF Tr[l].how \in {"mctor", "massign"} THEN (mf \ {Tr[l].dst}) \cup {Tr[l].src} ELSE mf \ {Tr[l].dst}
+         /\ IF lost \/ Tr[l].src \in mf THEN UNCHANGED <<val, cur, lost, viol>>
             ELSE LET ev == Tr[l] IN
                  IF ev.counts # Counts(val[ev.src])
                  THEN Bad("copied block does not hold the source's items", ev) /\ UNCHANGED <<val, cur>>
@@ -63,32 +95,35 @@ TCopy == /\ l <= N /\ Tr[l].e = "CP"
                                              what |-> "lookup keys of the copied block still refer to the source's storage"])
 
 TRead == /\ l <= N /\ Tr[l].e = "RD"
-         /\ l' = l + 1 /\ UNCHANGED <<execs, val>>
-         /\ IF lost THEN UNCHANGED <<cur, lost, viol>>
+         /\ l' = l + 1 /\ UNCHANGED <<execs, val, mf>>
+         /\ IF lost \/ Tr[l].t \in mf THEN UNCHANGED <<cur, lost, viol>>
             ELSE LET ev == Tr[l] IN
                  IF AbsReadOK(val[ev.t], cur[ev.t], ev.k, ev.end, ev.v, ev.c) /\ ev.ok
+                    /\ ((ev.k = "qr" /\ ~ev.end) => (ev.rc = RcExp(ev.v, val[ev.t].p) /\ ev.oc = OcExp(ev.v, val[ev.t].p)))
                  THEN cur' = [cur EXCEPT ![ev.t] = AbsReadNext(@, ev.k, ev.end, ev.v)] /\ UNCHANGED <<lost, viol>>
                  ELSE Bad("reading the copied block gives something else than reading a fresh block with that content", ev)
                       /\ UNCHANGED cur
 
-SerOK(v, ev) == /\ ev.ok /\ ev.q = v.q /\ ev.m = v.m
+SerOK(v, ev) == /\ ev.ok /\ ev.m = v.m
+                /\ Len(ev.q) = Len(v.q)
+                /\ \A i \in 1..Len(v.q) : ev.q[i] = <<v.q[i], RcExp(v.q[i], v.p), OcExp(v.q[i], v.p)>>
                 /\ Len(ev.a) = Len(v.a)
                 /\ {<<ev.a[i][1], ev.a[i][2]>> : i \in 1..Len(ev.a)} = AecPairs(v)
 
 TSer == /\ l <= N /\ Tr[l].e = "S"
-        /\ l' = l + 1 /\ UNCHANGED <<execs, val, cur>>
-        /\ IF lost \/ SerOK(val[Tr[l].t], Tr[l]) THEN UNCHANGED <<lost, viol>>
+        /\ l' = l + 1 /\ UNCHANGED <<execs, val, cur, mf>>
+        /\ IF lost \/ Tr[l].t \in mf \/ Tr[l].p # val[Tr[l].t].p \/ SerOK(val[Tr[l].t], Tr[l]) THEN UNCHANGED <<lost, viol>>
            ELSE Bad("the serialisation of the block differs from that of a fresh block with that content", Tr[l])
 
 TCrash == /\ l <= N /\ Tr[l].e = "CRASH"
-          /\ l' = l + 1 /\ UNCHANGED <<execs, val, cur>>
+          /\ l' = l + 1 /\ UNCHANGED <<execs, val, cur, mf>>
           /\ Bad("implementation crashed (sanitizer report or signal): " \o Tr[l].what, Tr[l])
 
 TEnd == /\ l <= N /\ Tr[l].e = "END"
         /\ ndJsonSerialize(IOEnv.OUT, <<[execs |-> execs, events |-> N, viol |-> viol, drift |-> <<>>]>>)
-        /\ l' = l + 1 /\ UNCHANGED <<val, cur, lost, viol, execs>>
+        /\ l' = l + 1 /\ UNCHANGED <<val, cur, lost, viol, execs, mf>>
 
-TraceNext == TReset \/ TItem \/ TClear \/ TCopy \/ TRead \/ TSer \/ TCrash \/ TEnd
+TraceNext == TReset \/ TItem \/ TNew \/ TSetP \/ TClear \/ TCopy \/ TRead \/ TSer \/ TCrash \/ TEnd
 TraceSpec == TraceInit /\ [][TraceNext]_tvars
 TraceConsumed == TLCGet("stats").diameter - 1 = N
 =============================================================================
